@@ -243,9 +243,9 @@ def finishMin (path : Path) (name : String) (children : List (String × PR)) : P
   let vars : List Var := [⟨minInd, name ++ "_min_indicator", .bin, some 0, .none⟩,
     ⟨minStart, name ++ "_min_start_time", .int, some 0, .none⟩,
     ⟨minEnd, name ++ "_min_end_time", .int, some 0, .none⟩]
-  let acc := children.foldl (fun a (cn, r) => minStep name minStart minEnd a cn r) {}
-  let allUtil := children.all (fun (_, r) => r.util)
-  let bound := children.foldl (fun b (_, r) => addUb b r.ub) (some 0)
+  let acc := children.foldl (fun a x => minStep name minStart minEnd a x.1 x.2) {}
+  let allUtil := children.all (fun x => x.2.util)
+  let bound := children.foldl (fun b x => addUb b x.2.ub) (some 0)
   if acc.count == 0 then
     let pr : PR := if allUtil then
         ⟨true, .var minStart, .var minEnd, acc.utility ++ [(1, .none)], some 1, .const 1⟩
@@ -361,17 +361,17 @@ def compileNode (ctx : Ctx) (path : Path) : Expr → Out
     ⟨PR.none, outs.flatMap (·.2.vars), outs.flatMap (·.2.cons), outs.flatMap (·.2.regs)⟩
   | .min name cs =>
     let outs := compileList ctx path 0 cs
-    let (pr, vars, cons) := finishMin path name (outs.map (fun (cn, o) => (cn, o.pr)))
-    ⟨pr, vars ++ outs.flatMap (·.2.vars), outs.flatMap (·.2.cons) ++ cons, outs.flatMap (·.2.regs)⟩
+    let fm := finishMin path name (outs.map (fun x => (x.1, x.2.pr)))
+    ⟨fm.1, fm.2.1 ++ outs.flatMap (·.2.vars), outs.flatMap (·.2.cons) ++ fm.2.2, outs.flatMap (·.2.regs)⟩
   | .max name cs =>
     let outs := compileList ctx path 0 cs
-    let (pr, vars, cons) := finishMax path name (outs.map (·.2.pr))
-    ⟨pr, vars ++ outs.flatMap (·.2.vars), outs.flatMap (·.2.cons) ++ cons, outs.flatMap (·.2.regs)⟩
+    let fm := finishMax path name (outs.map (·.2.pr))
+    ⟨fm.1, fm.2.1 ++ outs.flatMap (·.2.vars), outs.flatMap (·.2.cons) ++ fm.2.2, outs.flatMap (·.2.regs)⟩
   | .lt name a b =>
     let oa := compileNode ctx (0 :: path) a
     let ob := compileNode ctx (1 :: path) b
-    let (pr, vars, cons) := finishLt path name oa.pr ob.pr
-    ⟨pr, oa.vars ++ ob.vars ++ vars, oa.cons ++ ob.cons ++ cons, oa.regs ++ ob.regs⟩
+    let fl := finishLt path name oa.pr ob.pr
+    ⟨fl.1, oa.vars ++ ob.vars ++ fl.2.1, oa.cons ++ ob.cons ++ fl.2.2, oa.regs ++ ob.regs⟩
   | .scale _ f d c =>
     let oc := compileNode ctx (0 :: path) c
     ⟨finishScale f d oc.pr, oc.vars, oc.cons, oc.regs⟩
@@ -419,12 +419,12 @@ def compile (ctx : Ctx) (root : Expr) : MipModel :=
   match root with
   | .obj _ cs =>
     let outs := compileList ctx [] 0 cs
-    let used := outs.filter (fun (_, o) => o.pr.util)
+    let used := outs.filter (fun x => x.2.pr.util)
     let regs := outs.flatMap (·.2.regs)
     { vars := outs.flatMap (·.2.vars),
       cons := outs.flatMap (·.2.cons) ++ capConstrs regs,
       obj := used.flatMap (·.2.pr.utility),
-      objUb := used.foldl (fun b (_, o) => addUb b o.pr.ub) (some 0) }
+      objUb := used.foldl (fun b x => addUb b x.2.pr.ub) (some 0) }
   | _ => ⟨[], [], [], .none⟩
 
 /-! ### Well-formedness (everything the C++ rejects with an exception) -/
@@ -469,7 +469,7 @@ def wfNode (ctx : Ctx) (path : Path) : Expr → Option String
     if cs.isEmpty then some "ExpressionSolutionException" else wfList ctx path 0 cs
   | .max _ cs =>
     if cs.isEmpty then some "ExpressionSolutionException"
-    else if (compileList ctx path 0 cs).any (fun (_, o) => o.pr.util) then .none
+    else if (compileList ctx path 0 cs).any (fun x => x.2.pr.util) then .none
     else some "ExpressionConstructionException"
   | .lt _ a b =>
     match wfNode ctx (0 :: path) a with
